@@ -45,7 +45,9 @@ pub struct Wrappers<'a> {
 }
 
 fn idx(w: &str) -> usize {
-    if w.ends_with('1') { 0 } else { 1 }
+    let i = if w.ends_with('1') { 0 } else { 1 };
+    // negative control of the check: wire with_cancel to the other token, the contract oracle must notice
+    if w.starts_with('C') && std::env::var("X04_FAULT").as_deref() == Ok("swap_tokens") { 1 - i } else { i }
 }
 
 /// Apply a chain (outermost first) around a future.
